@@ -383,7 +383,10 @@ func locksetStress(t testing.TB, cfg locksetCfg, k *locksetCounters, dur time.Du
 				s.GetOOBMaxSize()
 				k.add("GetOOBMaxSize", 1)
 			case 7:
+				// every reader of the process-wide counters, as a statistics logger uses them
 				DefaultSnmp.Copy()
+				DefaultSnmp.ToSlice()
+				DefaultSnmp.Header()
 				k.add("Snmp.Copy", 1)
 			}
 			time.Sleep(50 * time.Microsecond)
